@@ -87,6 +87,9 @@ func recordLayout(t *rapid.T, label string, fields ...[]byte) ([][]byte, func() 
 	for _, idx := range order {
 		copy(buf[off:], fields[idx])
 		out[idx] = buf[off : off+len(fields[idx])] // capacity runs to the end of the record
+		if fields[idx] == nil {
+			out[idx] = nil // an absent field stays absent (nil), it does not become an empty sub-slice
+		}
 		off += len(fields[idx])
 	}
 	snapshot := append([]byte(nil), buf...)
